@@ -31,7 +31,9 @@ pub struct C20;
 
 fn text(rng: &mut Rng, long: bool) -> String {
     let pool = ["plain ascii ", "ünïcödé ", "日本語テキスト", "🙂🙃", "\n", "line\nbreak ", "é", "\t", "a"];
-    let n = if long { rng.range(20, 400) } else { rng.range(0, 6) };
+    // long texts: usually up to a few kB; 1 in 8 of them larger than any preview cap (a single
+    // chunk beyond 8 KiB)
+    let n = if long { if rng.chance(1, 8) { rng.range(1200, 3000) } else { rng.range(20, 400) } } else { rng.range(0, 6) };
     let mut s = String::new();
     for _ in 0..n {
         s.push_str(pool[rng.usize_below(pool.len())]);
@@ -315,7 +317,7 @@ impl Check for C20 {
         out.into_iter().map(|s| serde_json::to_value(s).unwrap()).collect()
     }
     fn rule(&self) -> String {
-        "one evaluation = one sequence of 1-300 frames drawn from every frame type (session, provider, tool, checkpoint, task, continuity) with arbitrary ids incl. unknown tool/task ids and terminal frames without a start, arbitrary timestamps, payloads with multi-byte text of 0-400 pieces (around every truncation limit), nested JSON; a third are well-ordered single-stream histories, the rest pass a faulty channel (10% drop, 5% duplicate, 5% seq rewritten to a jump/0/MAX/earlier value, 5% reordered, three streams mixed); capacities from {1,2,3,8,50,10000} frames x {1,2,5,64,1024,10^6} output bytes; terminal sizes from 20x8 to 120x40; after every delivery: no panic, frame window / output text / previews within bounds; after the last: canvas, x-ray (json, decoded) and overlay renders do not panic; two independent folds give equal state (Debug) and equal renders; get_by_seq(s) for every seen seq and edge values returns a frame with that seq or nothing; distinct = hash of delivered frames and capacities; non-trivial = at least 3 frames".into()
+        "one evaluation = one sequence of 1-300 frames drawn from every frame type (session, provider, tool, checkpoint, task, continuity) with arbitrary ids incl. unknown tool/task ids and terminal frames without a start, arbitrary timestamps, payloads with multi-byte text of 0-400 pieces (around every truncation limit) and now and then 1200-3000 pieces (single chunks of 9-30 kB, beyond every cap), nested JSON; a third are well-ordered single-stream histories, the rest pass a faulty channel (10% drop, 5% duplicate, 5% seq rewritten to a jump/0/MAX/earlier value, 5% reordered, three streams mixed); capacities from {1,2,3,8,50,10000} frames x {1,2,5,64,1024,10^6} output bytes; terminal sizes from 20x8 to 120x40; after every delivery: no panic, frame window / output text / previews within bounds; after the last: canvas, x-ray (json, decoded) and overlay renders do not panic; two independent folds give equal state (Debug) and equal renders; get_by_seq(s) for every seen seq and edge values returns a frame with that seq or nothing; distinct = hash of delivered frames and capacities; non-trivial = at least 3 frames".into()
     }
     fn assumptions(&self) -> Vec<String> {
         vec![
